@@ -117,14 +117,20 @@ class Sign(Machine):
         # keys: one per algorithm family in use, plus mismatching ones
         algs = s.sample(ALGS, s.randint(1, 3))
         keys = []
+        # key names are legal file-name stems: in some runs they contain dots (a key-rotation style "fw.v2.key_x"),
+        # and a *different* key sits under the name a suffix-replacing lookup would open instead ("fw.v2.pem")
+        style = s.choice(["plain", "plain", "dotted", "mixed"])
+        pre = lambda: "" if style == "plain" or (style == "mixed" and s.chance(0.5)) else s.choice(["fw.", "rel-1.2.", "a.b.c."])  # noqa: E731
         for a in algs:
-            keys.append({"name": f"key_{a.replace('-', '')}", "kind": KEYKIND_FOR_ALG[a],
+            keys.append({"name": f"{pre()}key_{a.replace('-', '')}", "kind": KEYKIND_FOR_ALG[a],
                          "enc": "pem" if a == "hash-eddsa" else s.choice(["pem", "der"])})
         if s.chance(0.4):
-            keys.append({"name": "key_ed448", "kind": "ed448", "enc": s.choice(["pem", "der"])})
+            keys.append({"name": f"{pre()}key_ed448", "kind": "ed448", "enc": s.choice(["pem", "der"])})
         if s.chance(0.5):
-            keys.append({"name": "key_other", "kind": s.choice(["es-256", "es-384", "es-521", "ed25519"]),
+            keys.append({"name": f"{pre()}key_other", "kind": s.choice(["es-256", "es-384", "es-521", "ed25519"]),
                          "enc": s.choice(["pem", "der"])})
+        for k in keys:
+            k["decoy"] = "." in k["name"] and s.chance(0.6)
         # second key of a family, to see that the *right* key signed
         k0 = keys[0]
         keys.append({"name": k0["name"] + "_b", "kind": k0["kind"], "enc": k0["enc"]})
@@ -245,6 +251,12 @@ class Sign(Machine):
             key = world.make_private_key(host.seed, kdef["name"], kdef["kind"])
             host.write(f"keys/{kdef['name']}.{kdef['enc']}", world.private_key_bytes(key, kdef["enc"]))
             model["keys"][kdef["name"]] = {"pub": key.public_key(), "kind": kdef["kind"], "enc": kdef["enc"]}
+            if "." in kdef["name"]:
+                ex["dotted_key_names"] = ex.get("dotted_key_names", 0) + 1
+            if kdef.get("decoy"):
+                decoy = world.make_private_key(host.seed, kdef["name"] + "-decoy", kdef["kind"])
+                for enc in ("pem", "der"):
+                    host.write(f"keys/{kdef['name'].rsplit('.', 1)[0]}.{enc}", world.private_key_bytes(decoy, enc))
         for edef in op["envs"]:
             s = Stream(edef["gen"], "env")
             desc = self._describe(host, s, edef["name"], edef["shape"], edef["features"], 0)
